@@ -184,6 +184,8 @@ struct Unit {
     art: Artefact,
     lo: usize,
     hi: usize,
+    /// visit every `step`-th bit of the range (1 = every bit)
+    step: usize,
     stratum: &'static str,
     first_of_tuple: bool,
 }
@@ -241,7 +243,7 @@ fn run_unit(set: &dyn DynSet, u: &Unit, run: u64) -> UnitOut {
         out.sample = Some(json!({"tuple": t.to_json(info.name), "hint_weight": w, "stratum": u.stratum}));
     }
     let mut dg = Digest::new();
-    for bit in u.lo..u.hi {
+    for bit in (u.lo..u.hi).step_by(u.step.max(1)) {
         out.evals += 1;
         let region = match u.art {
             Artefact::Sig => sig_region(info, &b.sig, bit),
@@ -304,19 +306,28 @@ const CHUNK: usize = 1024;
 
 fn push_units(units: &mut Vec<Unit>, set_idx: usize, info: &SetInfo, t: &Tuple, stratum: &'static str) {
     let mut first = true;
-    let ranges: Vec<(Artefact, usize, usize)> = if stratum == "full" {
-        [Artefact::Sig, Artefact::Pk, Artefact::Msg, Artefact::Ctx].iter().map(|a| (*a, 0, art_bits(info, t, *a))).collect()
+    let mb = art_bits(info, t, Artefact::Msg);
+    let ranges: Vec<(Artefact, usize, usize, usize)> = if stratum == "full" {
+        [Artefact::Sig, Artefact::Pk, Artefact::Msg, Artefact::Ctx].iter().map(|a| (*a, 0, art_bits(info, t, *a), 1)).collect()
     } else if stratum == "longmsg" {
-        vec![(Artefact::Msg, 0, art_bits(info, t, Artefact::Msg)), (Artefact::Ctx, 0, art_bits(info, t, Artefact::Ctx))]
+        vec![(Artefact::Msg, 0, mb, 1), (Artefact::Ctx, 0, art_bits(info, t, Artefact::Ctx), 1)]
+    } else if stratum == "aligned" {
+        // lengths chosen so that a slice boundary of the absorbed stream falls on a SHAKE256 block
+        // boundary: every message and context bit, rho, and every third t1 bit (all ten bit
+        // positions of the 10-bit fields are visited)
+        vec![(Artefact::Msg, 0, mb, 1), (Artefact::Ctx, 0, art_bits(info, t, Artefact::Ctx), 1), (Artefact::Pk, 0, 256, 1), (Artefact::Pk, 256, 8 * info.pk_len, 3)]
+    } else if stratum == "hugemsg" {
+        // a message longer than 64 KiB: head, tail (the trailing partial blocks of every pre-hash) and a thin sample
+        vec![(Artefact::Msg, 0, 128, 1), (Artefact::Msg, mb.saturating_sub(2400), mb, 1), (Artefact::Msg, 128, mb.saturating_sub(2400), 4099)]
     } else {
         // hint stratum: commitment hash and the whole hint section of many more signatures
-        vec![(Artefact::Sig, 0, 8 * info.ctilde_len), (Artefact::Sig, 8 * info.hint_start(), 8 * info.sig_len)]
+        vec![(Artefact::Sig, 0, 8 * info.ctilde_len, 1), (Artefact::Sig, 8 * info.hint_start(), 8 * info.sig_len, 1)]
     };
-    for (a, lo0, hi0) in ranges {
+    for (a, lo0, hi0, step) in ranges {
         let mut lo = lo0;
         while lo < hi0 {
-            let hi = (lo + CHUNK).min(hi0);
-            units.push(Unit { set_idx, tuple: t.clone(), art: a, lo, hi, stratum, first_of_tuple: first });
+            let hi = (lo + CHUNK * step).min(hi0);
+            units.push(Unit { set_idx, tuple: t.clone(), art: a, lo, hi, step, stratum, first_of_tuple: first });
             first = false;
             lo = hi;
         }
@@ -338,6 +349,8 @@ pub fn run(ctx: &Ctx) -> i32 {
     let mut n_full = 0u64;
     let mut n_hint = 0u64;
     let mut n_long = 0u64;
+    let mut n_aligned = 0u64;
+    let mut n_huge = 0u64;
     for (si, set) in all.iter().enumerate() {
         let info = set.info();
         for (mi, mode) in MODES.iter().enumerate() {
@@ -353,6 +366,29 @@ pub fn run(ctx: &Ctx) -> i32 {
                 };
                 push_units(&mut units, si, info, &t, "full");
                 n_full += 1;
+            }
+            // block-aligned lengths: pure absorbs tr(64)|dom|len|ctx|M, hash modes tr(64)|dom|len|ctx|OID(11)|PH(32 or 64)
+            let aligned: [(usize, usize); 2] = match mode {
+                Mode::Pure => [(70, 5 + si), (5 + mi, 65 - mi)],
+                Mode::Sha512 => [(59, 9), (131, 17)],
+                _ => [(59, 9), (27, 17)],
+            };
+            for (j, (cl, ml)) in aligned.iter().enumerate() {
+                if ctx.tier == Tier::Quick && (si + mi + j) % 2 == 1 {
+                    continue;
+                }
+                let mut p = Prng::for_run(ctx.seed, &format!("c05-aligned-{}-{}", info.name, mode.name()), j as u64);
+                let t = Tuple { mode: *mode, xi: p.array32(), rnd: p.array32(), msg: p.bytes(*ml), ctx: p.bytes(*cl), prov: provs[(mi + j) % 3] };
+                push_units(&mut units, si, info, &t, "aligned");
+                n_aligned += 1;
+            }
+            // a message longer than 64 KiB (bulk paths of the pre-hash functions)
+            if ctx.tier == Tier::Thorough || mi == (si + 2) % 4 || (mi == (si + 1) % 4 && *mode != Mode::Pure) {
+                let mut p = Prng::for_run(ctx.seed, &format!("c05-huge-{}-{}", info.name, mode.name()), 0);
+                let hl = 65_536 + 37 + 64 * mi + si;
+                let t = Tuple { mode: *mode, xi: p.array32(), rnd: p.array32(), msg: p.bytes(hl), ctx: p.bytes(2), prov: provs[(si + mi) % 3] };
+                push_units(&mut units, si, info, &t, "hugemsg");
+                n_huge += 1;
             }
             // long multi-block message: every message bit (pre-hash and SHAKE256 absorb paths)
             if ctx.tier == Tier::Thorough || mi == (si + 1) % 4 || mi == (si + 3) % 4 {
@@ -424,7 +460,7 @@ pub fn run(ctx: &Ctx) -> i32 {
         level: "fault_enumeration",
         evaluations: evals,
         signatures: sigs.into_iter().collect(),
-        rule: "For each seeded honest tuple (set, mode, xi, rnd, message, context, verifier-key provenance) that verifies: stratum `full` flips EVERY bit of the signature, of the serialised public key, of the message and of the context, one at a time; stratum `longmsg` flips every bit of a multi-block message (1100 bytes quick, 5000 thorough); stratum `hint` flips every bit of the commitment hash and of the whole hint section (index bytes, zero padding, count bytes) on many more signatures. Oracle: verification returns false (a public key that no longer deserialises counts as rejected; a panic counts as not returning false). A case is distinct by (set, mode, provenance, artefact, region of the flipped bit, whether a restated Algorithm 21 says the flip is rejected by decoding or only by the commitment hash, message/context length class).".into(),
+        rule: "For each seeded honest tuple (set, mode, xi, rnd, message, context, verifier-key provenance) that verifies: stratum `full` flips EVERY bit of the signature, of the serialised public key, of the message and of the context, one at a time; stratum `aligned` uses context/message lengths at which a slice boundary of the absorbed stream falls on a SHAKE256 block boundary (every message and context bit, rho, every third t1 bit); stratum `hugemsg` flips head, tail and a thin sample of a message longer than 64 KiB; stratum `longmsg` flips every bit of a multi-block message (1100 bytes quick, 5000 thorough); stratum `hint` flips every bit of the commitment hash and of the whole hint section (index bytes, zero padding, count bytes) on many more signatures. Oracle: verification returns false (a public key that no longer deserialises counts as rejected; a panic counts as not returning false). A case is distinct by (set, mode, provenance, artefact, region of the flipped bit, whether a restated Algorithm 21 says the flip is rejected by decoding or only by the commitment hash, message/context length class).".into(),
         samples,
         exhaustive: false,
         extra: json!({
@@ -432,8 +468,10 @@ pub fn run(ctx: &Ctx) -> i32 {
             "tuples_full": n_full,
             "tuples_hint_stratum": n_hint,
             "tuples_long_message_stratum": n_long,
+            "tuples_block_aligned_stratum": n_aligned,
+            "tuples_huge_message_stratum": n_huge,
             "tuples_unverifiable_skipped": unverifiable,
-            "runs": n_full + n_hint + n_long,
+            "runs": n_full + n_hint + n_long + n_aligned + n_huge,
             "runs_per_hour": if wall > 0.0 { ((n_full + n_hint) as f64 / wall * 3600.0) as u64 } else { 0 },
             "faults_fired": {"bitflip": evals},
             "faults_configured": {"bitflip": evals},
